@@ -93,13 +93,20 @@ def channelNames (frames : List Frame) (old new : List Bytes) : List Bytes :=
   | f0 :: _ => (match f0.subs with | sf0 :: _ => sf0.map (·.name) | [] => [])
   | [] => old ++ new
 
+/-- `group(G).parameter("LABELS").valuesAsString()` as `c3d::updateParameters` uses it: read ONLY when no frame is stored (with
+    frames the names come from frame 0, and a LABELS parameter of another type is then not looked at) -/
+def labelsFor (frames : List Frame) (gs : List Group) (g : Bytes) : Res (List Bytes) :=
+  match frames with
+  | [] => strsOf gs g LABELS
+  | _ :: _ => .ok []
+
 /-- POINT part of `c3d::updateParameters` (ezc3d.cpp:466-505) -/
 def updatePointParams (gs : List Group) (frames : List Frame) (newPoints : List Bytes) : Outcome (List Group) :=
   (gpIdx gs POINT FRAMES).andThen gs fun (gP, iFrames) =>
   (int0 gs POINT FRAMES).andThen gs fun fr =>
   let g1 := if frames.length ≠ intToU64 fr
             then modParam gs gP iFrames (·.setInts! [u64ToI32 frames.length]) else gs
-  (strsOf g1 POINT LABELS).andThen g1 fun oldLabels =>
+  (labelsFor frames g1 POINT).andThen g1 fun oldLabels =>
   let ptNames := pointNames frames oldLabels newPoints
   (int0 g1 POINT USED).andThen g1 fun used =>
   if ptNames.length ≠ intToU64 used then
@@ -117,7 +124,7 @@ def updatePointParams (gs : List Group) (frames : List Frame) (newPoints : List 
 /-- ANALOG part of `c3d::updateParameters` (ezc3d.cpp:507-558) -/
 def updateAnalogParams (gs : List Group) (frames : List Frame) (newAnalogs : List Bytes) : Outcome (List Group) :=
   (groupIdx gs ANALOG).andThen gs fun gA =>
-  (strsOf gs ANALOG LABELS).andThen gs fun oldALabels =>
+  (labelsFor frames gs ANALOG).andThen gs fun oldALabels =>
   let chNames := channelNames frames oldALabels newAnalogs
   (int0 gs ANALOG USED).andThen gs fun aused =>
   if chNames.length ≠ intToU64 aused then
